@@ -248,3 +248,62 @@ pub broadcast proof fn lemma_union_nonempty(a: Set<Term>, s: Seq<Term>)
         assert(false);
     }
 }
+
+// ---- C14: the image iterator ---------------------------------------------------------------
+/// the sequence ImageIterator yields from a state (remaining inner items, running index `now`,
+/// placeholder index `p`): the placeholder is injected when the running index reaches p.
+pub open spec fn image_iter_seq(rem: Seq<&Term>, now: int, p: int) -> Seq<&Term>
+    decreases rem.len(), (if now <= p { p - now + 1 } else { 0 }),
+{
+    if now == p {
+        seq![&Term::Placeholder] + image_iter_seq(rem, now + 1, p)
+    } else if rem.len() == 0 {
+        Seq::empty()
+    } else {
+        seq![rem[0]] + image_iter_seq(rem.skip(1), now + 1, p)
+    }
+}
+
+/// the step semantics above is "insert the placeholder at position p - now" whenever that
+/// position lies within the remaining items (a well-formed image: index <= number of components)
+pub proof fn lemma_image_iter_is_insert(rem: Seq<&Term>, now: int, p: int)
+    requires now <= p <= now + rem.len()
+    ensures image_iter_seq(rem, now, p) == rem.insert(p - now, &Term::Placeholder)
+    decreases rem.len(), (if now <= p { p - now + 1 } else { 0 }),
+{
+    if now == p {
+        lemma_image_iter_no_placeholder(rem, now + 1, p);
+        assert(image_iter_seq(rem, now, p) =~= rem.insert(0, &Term::Placeholder));
+    } else {
+        lemma_image_iter_is_insert(rem.skip(1), now + 1, p);
+        assert(image_iter_seq(rem, now, p) =~= rem.insert(p - now, &Term::Placeholder));
+    }
+}
+/// once the running index is past p the iterator just forwards the inner items
+pub proof fn lemma_image_iter_no_placeholder(rem: Seq<&Term>, now: int, p: int)
+    requires now > p
+    ensures image_iter_seq(rem, now, p) == rem
+    decreases rem.len()
+{
+    if rem.len() > 0 {
+        lemma_image_iter_no_placeholder(rem.skip(1), now + 1, p);
+        assert(image_iter_seq(rem, now, p) =~= rem);
+    } else {
+        assert(image_iter_seq(rem, now, p) =~= rem);
+    }
+}
+/// one-step unfolding of image_iter_seq in head / tail form (what vstd's law for `next` needs)
+pub proof fn lemma_image_iter_unfold(rem: Seq<&Term>, now: int, p: int)
+    ensures
+        now == p ==> image_iter_seq(rem, now, p).len() > 0 && image_iter_seq(rem, now, p)[0] == &Term::Placeholder
+            && image_iter_seq(rem, now, p).skip(1) == image_iter_seq(rem, now + 1, p),
+        now != p && rem.len() > 0 ==> image_iter_seq(rem, now, p).len() > 0 && image_iter_seq(rem, now, p)[0] == rem[0]
+            && image_iter_seq(rem, now, p).skip(1) == image_iter_seq(rem.skip(1), now + 1, p),
+        now != p && rem.len() == 0 ==> image_iter_seq(rem, now, p).len() == 0,
+{
+    if now == p {
+        assert(image_iter_seq(rem, now, p).skip(1) =~= image_iter_seq(rem, now + 1, p));
+    } else if rem.len() > 0 {
+        assert(image_iter_seq(rem, now, p).skip(1) =~= image_iter_seq(rem.skip(1), now + 1, p));
+    }
+}
